@@ -87,7 +87,11 @@ SPEC = {
     'body_size_from_message_size': ('r', '''        requires old_ok(secure_channel), message_type != MessageChunkType::OpenSecureChannel, message_size <= 0x1000_0000,
         ensures
             message_size < MIN_CHUNK_SIZE ==> r is Err,
-            message_size >= MIN_CHUNK_SIZE ==> r is Ok && r->Ok_0 == spec_body(secure_channel, message_size),'''),
+            // the largest body that fits the negotiated size together with its own padding
+            message_size >= MIN_CHUNK_SIZE ==> r is Ok
+                && spec_chunk_size(secure_channel, r->Ok_0) <= message_size
+                && spec_chunk_size(secure_channel, (r->Ok_0 + 1) as usize) > message_size
+                && r->Ok_0 == spec_body(secure_channel, message_size),'''),
 }
 
 PRELUDE_SPEC = '''
@@ -123,29 +127,24 @@ pub open spec fn spec_pad(sec: bool, body: usize, sig: usize) -> usize {
         if e % 16 != 0 { (1 + (16 - e % 16)) as usize } else { 1 }
     }
 }
+// the body size for a negotiated chunk size m: everything but the headers and the signature, minus (when encrypting) what
+// makes sequence header + body + one padding byte + signature end on a cipher block boundary
 pub open spec fn spec_body(c: &SecureChannel, m: usize) -> usize {
     let sig = spec_sym_sig(c.security_policy);
-    (m - (12 + 4 + 8 + spec_pad(encrypting(c), 1, sig) + sig)) as usize
+    let b0 = m - (12 + 4 + 8 + sig);
+    (if encrypting(c) { b0 - ((8 + b0 + sig) % 16) - 1 } else { b0 }) as usize
 }
 // total bytes on the wire for a symmetric chunk with body b
 pub open spec fn spec_chunk_size(c: &SecureChannel, b: usize) -> int {
     let sig = spec_sym_sig(c.security_policy);
     12 + 4 + 8 + b + spec_pad(encrypting(c), b, sig) + sig
 }
-// KNOWN FINDING C07.chunk_overshoot (known_findings.txt): the padding reserved by body_size_from_message_size is
-// that of a 1-byte body, not the maximum; a chunk filled to the computed body size exceeds the negotiated size m
-// exactly for these residues of m.
-pub open spec fn kf_c07_overshoot(c: &SecureChannel, m: usize) -> bool {
-    encrypting(c) && (
-        (spec_sym_sig(c.security_policy) == 32 && 1 <= (m - 22) % 16 <= 9)
-        || (spec_sym_sig(c.security_policy) == 20 && 1 <= (m - 18) % 16 <= 13))
-}
 '''
 
 LEMMAS = '''
 // C07 "never exceed the negotiated chunk size": every body up to the computed body size gives a chunk <= m
 proof fn lemma_chunk_fits(c: &SecureChannel, m: usize, b: usize)
-    requires old_ok(c), MIN_CHUNK_SIZE <= m <= 0x1000_0000, b <= spec_body(c, m), !kf_c07_overshoot(c, m),
+    requires old_ok(c), MIN_CHUNK_SIZE <= m <= 0x1000_0000, b <= spec_body(c, m),
     ensures spec_chunk_size(c, b) <= m,
 {
     let sig = spec_sym_sig(c.security_policy);
@@ -156,12 +155,13 @@ proof fn lemma_chunk_fits(c: &SecureChannel, m: usize, b: usize)
         assert(sig == 20 || sig == 32);
     }
 }
-// the listed finding is exactly the overshoot class: inside it the full chunk exceeds m (so the carve-out above
-// excludes nothing else), and by at most 15 bytes
-proof fn lemma_kf_class_is_exact(c: &SecureChannel, m: usize)
-    requires old_ok(c), MIN_CHUNK_SIZE <= m <= 0x1000_0000, kf_c07_overshoot(c, m),
-    ensures m < spec_chunk_size(c, spec_body(c, m)) <= m + 15,
+// and the computed body size wastes less than one cipher block: the full chunk ends within 15 bytes of the negotiated size
+proof fn lemma_body_is_tight(c: &SecureChannel, m: usize)
+    requires old_ok(c), MIN_CHUNK_SIZE <= m <= 0x1000_0000,
+    ensures m - 15 <= spec_chunk_size(c, spec_body(c, m)) <= m,
 {
+    let sig = spec_sym_sig(c.security_policy);
+    assert(sig == 0 || sig == 20 || sig == 32);
 }
 // C07: what is signed/encrypted is a whole number of cipher blocks
 proof fn lemma_block_multiple(c: &SecureChannel, b: usize)
@@ -183,14 +183,7 @@ proof fn lemma_body_positive(c: &SecureChannel, m: usize)
 }
 '''
 
-WITNESS = '''
-// witness of the known finding C07.chunk_overshoot: must FAIL while the finding exists
-proof fn witness_kf_c07_overshoot(c: &SecureChannel)
-    requires c.security_policy == SecurityPolicy::Basic256Sha256, c.security_mode == MessageSecurityMode::SignAndEncrypt,
-    ensures spec_chunk_size(c, spec_body(c, 65535)) <= 65535,
-{
-}
-'''
+WITNESS = ''
 
 CANARY = '''
 proof fn canary_padding_size_pre(c: &SecureChannel, h: SecurityHeader, body_size: usize, signature_size: usize)
@@ -198,7 +191,7 @@ proof fn canary_padding_size_pre(c: &SecureChannel, h: SecurityHeader, body_size
     ensures false,
 {}
 proof fn canary_chunk_fits_pre(c: &SecureChannel, m: usize, b: usize)
-    requires old_ok(c), encrypting(c), MIN_CHUNK_SIZE <= m <= 0x1000_0000, b <= spec_body(c, m), !kf_c07_overshoot(c, m),
+    requires old_ok(c), encrypting(c), MIN_CHUNK_SIZE <= m <= 0x1000_0000, b <= spec_body(c, m),
     ensures false,
 {}
 '''
@@ -227,6 +220,13 @@ def build(manifest):
         fns[k] = norm_vis(splice_contract(clean_fn(fns[k]), SPEC[k][1], SPEC[k][0]))
         # private fns are called across impl blocks of one file: visibility has no run-time meaning (D5)
         fns[k] = re.sub(r'^(\s*)fn ', r'\1pub fn ', fns[k], count=1) if not re.match(r'\s*pub ', fns[k]) else fns[k]
+    # the loop that takes the padding of the body off the body: decreasing from "no padding reserved"
+    fns['body_size_from_message_size'] = splice_loop(fns['body_size_from_message_size'], 0, '''            invariant old_ok(secure_channel), security_header is Symmetric, MIN_CHUNK_SIZE <= message_size <= 0x1000_0000,
+                signature_size == spec_sym_sig(secure_channel.security_policy), data_size == 12 + 4 + 8 + signature_size,
+                body_size <= message_size - data_size,
+                // every larger body overshoots
+                forall|b: usize| body_size < b <= message_size - data_size ==> #[trigger] spec_chunk_size(secure_channel, b) > message_size,
+            decreases body_size,''')
     a = Asm()
     a.add('use vstd::prelude::*;\nverus! {\nglobal size_of usize == 8;\n', 'prelude', 'env')
     a.add(norm_vis(types) + '\n' + norm_vis(consts), 'types', 'env')
@@ -242,12 +242,11 @@ def build(manifest):
     a.add(fns['body_size_from_message_size'], 'body_size_from_message_size', 'fn')
     a.add('}')
     add_proof_fns(a, LEMMAS, 'lemma')
-    add_proof_fns(a, WITNESS, 'witness')
     add_proof_fns(a, CANARY, 'canary')
     a.add('}\nfn main() {}\n')
     return dict(asm=a, pid=PID, short=SHORT, clauses={k: v[1] for k, v in SPEC.items()},
                 twins={'padding_size': 'c07::c07_padding_twin', 'body_size_from_message_size': 'c07::c07_padding_twin',
                        'lemma_chunk_fits': 'c07::c07_padding_twin'},
-                witness={'witness_kf_c07_overshoot': 'C07.chunk_overshoot'},
+                witness={},
                 assumptions=['C07: contracts are for symmetric (MSG/CLO) chunks; OPN chunks (asymmetric header, RSA block sizes) are '
                              'not under contract', 'C07: AES-CBC / RSA decrypt inverts encrypt (OpenSSL) — assumed, not proved'])
